@@ -250,6 +250,18 @@ def work_repo(bins, seed, idx, tmp):
                     continue
                 if base is None:
                     base = (label, r)
+                    if kind == "clean" and cmd == ["version", "--output-format", "zerv"] and r["exit"] == 0:
+                        # date-derived components are computed in UTC: the instant zerv works from is the commit's Unix time, whatever UTC offset
+                        # the commit was recorded under (the generator stamps commits with offsets from -11:00 to +14:00)
+                        try:
+                            got = ron.decode_zerv(r["out"])[1].get("bumped_timestamp")
+                        except Exception:
+                            got = "unparsable"
+                        want = repo.commits[repo.head_cid()]["ctime"]
+                        st["commit_instants_compared"] = st.get("commit_instants_compared", 0) + 1
+                        if got != want:
+                            bad.append(("commit-time-not-utc-instant", "clean checkout: bumped_timestamp %r but HEAD's committer time is %r (recorded with a non-UTC offset?)" % (got, want),
+                                        dict(kind="repo", seed=seed, idx=idx, cmd=cmd, label=label, ops=list(repo.ops))))
                     continue
                 st["repo_variants_compared"] += 1
                 if "LANGUAGE" in extra and base[1]["exit"] != 0 and r["exit"] == base[1]["exit"] and not r["out"] and not base[1]["out"]:
